@@ -77,8 +77,7 @@ def _results_ok(e, P, R, brk, ms, bst, upto=None):
             forall(k, z3.Implies(rng(0, k, R.len), z3.And(*[x == y for x, y in zip(R[k].positions.v.arrs, P.v.arrs)])), trig))]
     for name, body in _seg_ok(Pf, off, off + n, ms, bst, A(k), Bq(k), off + brk[k], R[k].segmentScore):
         out.append((name, forall(k, z3.Implies(rng(0, k, R.len), body), trig)))
-    out.append(('separated_and_in_order', forall(k, z3.Implies(z3.And(0 <= k, k + 1 < R.len), off + brk[k] < A(k + 1)),
-                                                 [R.raw(k + 1).t])))
+    out.append(('separated_and_in_order', forall(k, z3.Implies(z3.And(1 <= k, k < R.len), off + brk[k - 1] < A(k)), [R.raw(k).t])))
     if upto is not None:
         out.append(('results_end_before_scan_start', forall(k, z3.Implies(rng(0, k, R.len), off + brk[k] < upto), trig)))
     return out
@@ -156,10 +155,62 @@ def _statement(e, P, res, brk, ms, bst):
     return cl
 
 
+class SkolemList:
+    """a ghost list known only through a skolem function (the callee's ghost state seen from a call site)"""
+    def __init__(self, name):
+        self.f = z3.Function(fresh_name(name), z3.IntSort(), z3.IntSort())
+
+    def __getitem__(self, k):
+        return self.f(k)
+
+
 def _builder_ensures(C, res):
     me = C.self
-    brk = C.F.brk if C.has('F') else None
+    brk = C.F.brk if C.has('F') else SkolemList('brk')
     return _statement(C._e, me.positions, res, brk, me.minScore, me.breakSegmentThreshold)
+
+
+# ------------------------------------------------------------------ AlignmentSegmentsFactory (glue: constructor + builder)
+FACTORY = OBJ('AlignmentSegmentsFactory')
+
+
+def _factory_requires(C):
+    return [('minScore_positive', C.self.minScore > 0), ('unpaired_positions_do_not_score', unpaired_do_not_score(C.positions))]
+
+
+def _factory_ensures(C, res):
+    brk = SkolemList('brk')
+    if C.has('F'):
+        brk = C._st.notes['builder_brk']
+    return _statement(C._e, C.positions, res, brk, C.self.minScore, C.self.breakSegmentThreshold)
+
+
+def _builder_ensures_logged(C, res):
+    me = C.self
+    if C.has('F'):
+        brk = C.F.brk
+    else:
+        brk = SkolemList('brk')
+        C._st.notes['builder_brk'] = brk
+    return _statement(C._e, me.positions, res, brk, me.minScore, me.breakSegmentThreshold)
+
+
+factory_getSegments = FunctionSpec(
+    file='src/alignment/segments_factory.py', qualname='AlignmentSegmentsFactory.getSegments',
+    params=dict(self=FACTORY, positions=LIST(SCORED), peak=PEAK), returns=LIST(SEG),
+    requires=_factory_requires, ensures=_factory_ensures, serves=('C13', 'C04'),
+    note="public entry point: constructs the builder (fresh state, thresholds passed in the right order) and runs it; the C13 statement over the given position list")
+
+
+def _fi_ensures(C, res):
+    return []
+
+
+factory_init = FunctionSpec(
+    file='src/alignment/segments_factory.py', qualname='AlignmentSegmentsFactory.__init__',
+    params=dict(self=FACTORY, minScore=REAL, breakSegmentThreshold=REAL), returns=NONE,
+    raises={'ValueError': lambda C: C.minScore <= 0}, serves=('C13',),
+    note="ValueError exactly when minScore <= 0")
 
 
 def _brk_append(L):
@@ -172,7 +223,7 @@ builder_getSegments = FunctionSpec(
     file='src/alignment/segments_factory.py', qualname=f'{BUILDER}.getSegments',
     params=dict(self=OBJ(BUILDER)), returns=LIST(SEG),
     requires=_builder_requires,
-    ensures=_builder_ensures,
+    ensures=_builder_ensures_logged,
     loops={'while#0': Loop(inv=_builder_inv)},
     ghost={'brk': lambda C: C._e.fresh_list(INT, 'brk', n=z3.IntVal(0))},
     ghost_at={f'{BUILDER}.__addCurrentSegmentToResultIfScoreIsEnough:call#0': _brk_append},
@@ -182,4 +233,4 @@ builder_getSegments = FunctionSpec(
     note="the C13 statement as postcondition; ghost brk records where the scan broke after each result",
 )
 
-SPECS = [create, builder_getSegments]
+SPECS = [create, builder_getSegments, factory_getSegments, factory_init]
